@@ -16,7 +16,7 @@ CHECKS = {
         engine="Store",
         technique="TLA+/TLC model checking of Store.tla; TLC-generated call strings (transition cover of the bounded graph + simulation) replayed "
                   "call by call on the real snapshots.Store with a gated StorageLocation, published files decoded with snapshotpb; concurrent "
-                  "entry of calls from several goroutines with the harness-owned splitter's Checkpoint() gated",
+                  "entry of calls from several goroutines with the harness-owned splitter's Checkpoint() gated; late acknowledgements of the previous assembly: spec/Restart.tla (NoOldAssemblyPublication, Dev_DiscardAtRunning) replayed on the real jobs.Job with fake nodes whose acknowledgements are delivered at every point of the following start() (checks/restartlib.py)",
         text="TLC exhaustively checks OnlyWhenAllAcked, PublishedWhole, AtMostOnePending and IdsStrictlyIncrease over every sequence of "
              "create / savepoint / operator-ack / runner-ack calls (duplicates, late and future ids, foreign senders), asynchronous publication "
              "steps and store restarts within the bounds; a transition cover for the 1x1 assembly and thousands of simulated call strings for "
